@@ -10,7 +10,8 @@ extern "C" {
 enum { NODE_HARNESS = 0, NODE_CLIENT = 1, NODE_SERVER = 2, NODE_CLIENT2 = 3, NODE_SERVER2 = 4 };
 
 // key material kinds
-enum KeyKind { KK_NONE = 0, KK_RSA2048, KK_EC256, KK_EC384, KK_ECDH_RSA, KK_ED25519, KK_RSA1024, KK_EC521, KK_PSK_ONLY, KK_EC384_SHA384 /* P-384 identity whose certificate (and CA) are signed with ecdsa-with-SHA384 */ };
+enum KeyKind { KK_NONE = 0, KK_RSA2048, KK_EC256, KK_EC384, KK_ECDH_RSA, KK_ED25519, KK_RSA1024, KK_EC521, KK_PSK_ONLY, KK_EC384_SHA384 /* P-384 identity whose certificate (and CA) are signed with ecdsa-with-SHA384 */,
+               KK_EC256_PATHLEN /* minted P-256 chain leaf + sub CA whose root says pathlen:0 (sim/assets/pathlen_chain.h): must never validate */ };
 const char *keykind_name(int k);
 
 struct KeySpec {
